@@ -108,5 +108,30 @@ Section Factor.
         * left. exists a, path. auto.
         * right. tauto.
   Qed.
+  Theorem ABS_factor s : L ABS_raw s <-> exists p sch, valid_parts p /\ p_scheme p = Some sch /\ s = compose p.
+  Proof.
+    unfold ABS_raw. split.
+    - intros H. use (Cat_L _ _ _) in H. destruct H as (sch & rest & -> & Hs & Hrest).
+      use (lit1_L _ _ _) in Hrest; destruct Hrest as (rest' & -> & Hrest). use (Cat_L _ _ _) in Hrest; destruct Hrest as (h & t & -> & Hh & Ht).
+      use (TAIL_L _) in Ht; destruct Ht as (q & f & Hq & Hf & ->).
+      unfold HIER in Hh. rewrite !Alt_L, Eps_L, AUTHP_L in Hh.
+      destruct Hh as [(a & p & -> & Ha & Hp) | Hp].
+      + exists {| p_scheme := Some sch; p_authority := Some a; p_path := p; p_query := q; p_fragment := f |}, sch.
+        split; [repeat split; auto|]. split; [reflexivity|]. unfold compose, tail_of. simpl. rewrite <- !app_assoc. reflexivity.
+      + exists {| p_scheme := Some sch; p_authority := None; p_path := h; p_query := q; p_fragment := f |}, sch.
+        split; [repeat split; auto|]. split; [reflexivity|]. unfold compose, tail_of. simpl. rewrite <- !app_assoc. reflexivity.
+    - intros ([sch0 auth path q f] & sch & (Hs & Ha & Hp & Hq & Hf) & E & ->). simpl in E. subst sch0. unfold compose, tail_of; simpl in *.
+      assert (Ht : L TAIL (opt_pre [QM] q ++ opt_pre [HASH] f)) by (apply TAIL_L; eauto).
+      apply Cat_L. exists sch, (COLON :: opt_pre [SLASH; SLASH] auth ++ path ++ opt_pre [QM] q ++ opt_pre [HASH] f).
+      split; [rewrite <- app_assoc; reflexivity|]. split; auto.
+      apply lit1_L. eexists; split; [reflexivity|]. apply Cat_L.
+      exists (opt_pre [SLASH; SLASH] auth ++ path), (opt_pre [QM] q ++ opt_pre [HASH] f).
+      split; [rewrite <- app_assoc; reflexivity|]. split; auto.
+      unfold HIER. rewrite !Alt_L, Eps_L, AUTHP_L. unfold path_ok in Hp; simpl in Hp.
+      destruct auth as [a|]; simpl.
+      + left. exists a, path. auto.
+      + right. tauto.
+  Qed.
 End Factor.
 Print Assumptions REF_factor.
+Print Assumptions ABS_factor.
